@@ -20,6 +20,7 @@ var exprPool = []string{
 	"x < 100", "x == y", "x != \"a b\" && y", "ip.in_cidr(\"10.0.0.0/8\")", "ts + duration(\"1h\") >= now || !(x)", "n in [1, 2, 3]",
 	"allowed[\"k\"] == 'v'", "x > 1.5e3 ? true : false", "size(x) % 2 == 0u", "x.y.z == null", "a-b <= -1", "x*y/2 - 0x1F > 0",
 	"type == model", "x  ==  y", "b\"ab\" != r'c'",
+	"low <= x &&\n  x <= high", "n in [\n    1,\n    2,\n  3]", "x == 1 ||\n\n      y == 2 ||\nz",
 }
 
 func pick(rng *rand.Rand, xs []string) string { return xs[rng.Intn(len(xs))] }
